@@ -67,6 +67,9 @@ CHECKS = {
  "C15": dict(engine="S", tech=S+" with enumerated store faults", ref="DESIGN.md §3 C15",
    text="All interleavings (preemption bound 1-2, at most 1 injected store failure chosen by the explorer at any callback; free choices <= 3/5 with two workers) of 2-3 callers issuing the seven operations on colliding keys over an instrumented in-memory store, for map and LRU caches and 1-2 workers, plus ALL operation sequences of length 3 quick / 4 thorough over two keys with every failure placement: store callbacks of one key never overlap, accepted order = store order, whenever no operation on a key is in flight the cached value equals the store's (every scheduling decision and after every operation), successful delete leaves no cache entry, add on a cached key = duplicate error without a store call.",
    note="a failing store callback leaves the store unchanged; cache observed through the overlay hook VerifCachePeek in inspect mode (no schedule point)"),
+ "C16": dict(engine="S", tech=S+" with enumerated I/O faults", ref="DESIGN.md §3 C16",
+   text="All interleavings (preemption bound 2-3 quick / 3-4 thorough for one session, 1 with a free-choice bound for two sessions and the accept loop; every select resolution) of the two session goroutines with local Send/Close, a writing/closing peer, a read handler that may panic and explorer-chosen injected read/write errors and timeouts (budget 1 quick / 2 thorough) over a fake net.Conn built from scheduler-visible channels; the accept loop over a fake listener with 1-3 connections and maximum 1-2: exit callback exactly once, connection closed, both goroutines finished, count back to zero / never negative / never above the maximum at any scheduling decision, surplus connections closed, bytes accepted before a local Close delivered completely and in order.",
+   note="kernel TCP replaced by a fake net.Conn (Read blocks on a channel, Close wakes it, deadlines are no-ops, timeouts injected); accept loop entered through the overlay hook VerifLoopAccept"),
 }
 NA = {}
 
